@@ -14,13 +14,49 @@ package server
 //@   ensures h.Flags & 32768 == 0 && ((h.Flags >> 11) & 15 == 0 || (h.Flags >> 11) & 15 == 4) && h.QDCount == 1 && h.ANCount <= 1 && h.NSCount <= 1 && h.ARCount <= 2 ==> result == acceptOK
 //@
 //@ # the in-place rejection: twelve octets, ID echoed, QR set, opcode and RD echoed, RCODE 4 (NOTIMP) or 1 (FORMERR), counts zero
+//@ func (sourceAdmitter).AdmitsSource
+//@   trusted
+//@   params a addr
+//@   modifies nothing
+//@ # trusted: the body is `return &j.remote` (an interior pointer boxed into an interface is outside the full tier)
+//@ func (*udpJob).RemoteAddr
+//@   trusted
+//@   modifies nothing
 //@ func (*udpJob).rejectInPlace
 //@   arith bv
+//@   requires j.engine != nil
 //@   requires j != nil && 0 <= j.txLen && j.txLen <= len(j.tx) && 0 <= j.pktinfoLen && j.pktinfoLen <= len(j.pktinfo)
 //@   assert at call (*server.udpJob).Write#1: len(arg1) == 12 && arg1[0] == j.rx[0] && arg1[1] == j.rx[1]
 //@   assert at call (*server.udpJob).Write#1: arg1[2] == 128 | (((j.rx[2] >> 3) & 15) << 3) | (j.rx[2] & 1)
 //@   assert at call (*server.udpJob).Write#1: arg1[3] == ite(verdict == acceptNotImplemented, uint8(4), uint8(1))
 //@   assert at call (*server.udpJob).Write#1: arg1[4] == 0 && arg1[5] == 0 && arg1[6] == 0 && arg1[7] == 0 && arg1[8] == 0 && arg1[9] == 0 && arg1[10] == 0 && arg1[11] == 0
+//@   # C17: the rejection is a reply; it is written only to a source the handler's access list admits (a handler that
+//@   # offers no admission test - a test stub - admits everyone), and the source tested is this job's remote address
+//@   assert at call (*server.udpJob).Write#1: ok ==> lastret("(server.sourceAdmitter).AdmitsSource")
+//@   assert at call (server.sourceAdmitter).AdmitsSource#1: arg1 == lastret("(*server.udpJob).RemoteAddr")
+//@
+//@ func (*tcpJob).rejectInPlace
+//@   abstract
+//@   nosafety all pre
+//@   assert at call (*server.tcpStream).stage#1: ok ==> lastret("(server.sourceAdmitter).AdmitsSource")
+//@   assert at call (server.sourceAdmitter).AdmitsSource#1: arg1 == lastret("(*server.tcpJob).RemoteAddr")
+//@
+//@ # C17: the server's admission test is the pipeline's access list applied to the client address the chain writer
+//@ # would derive (UDP or TCP address; anything else has no client address and is denied); no list admits everyone
+//@ func (*Server).AdmitsSource
+//@   abstract
+//@   nosafety all pre
+//@   assert at return#1: result && s.admit == nil
+//@   assert at return#2: old(s.admit) != nil && result == lastret("(middleware.SourceAdmitter).AdmitsSource")
+//@   assert at call (middleware.SourceAdmitter).AdmitsSource#1: arg0 == old(s.admit) && (dyntype(addr, *net.UDPAddr) ==> arg1 == as(addr, *net.UDPAddr).IP) && (dyntype(addr, *net.TCPAddr) ==> arg1 == as(addr, *net.TCPAddr).IP) && (!dyntype(addr, *net.UDPAddr) && !dyntype(addr, *net.TCPAddr) ==> len(arg1) == 0)
+//@
+//@ # C17: the one reply the decoded entry builds ahead of the pipeline (FORMERR for a question count other than one)
+//@ # goes only to an admitted source
+//@ func (*Server).serveMsgBy
+//@   abstract
+//@   nosafety all pre
+//@   assert at call (middleware.Transport).WriteMsg#1: lastret("(*server.Server).AdmitsSource")
+//@   assert at call (*server.Server).AdmitsSource#1: arg0 == s && arg1 == lastret("(middleware.Transport).RemoteAddr")
 //@
 //@ # ---- C10: on a stream connection every staged reply is whole: a 2-octet length prefix followed by the complete
 //@ # payload, inside the drain buffer; the count of staged octets stays within the buffer
